@@ -211,7 +211,7 @@ func (e *Engine) renderGoal(ob *Obligation, universals []string, model bool) str
 			fmt.Fprintf(&b, "(assert %s)\n", h)
 			hypUniv = append(hypUniv, topUniversals(h)...)
 		}
-		if len(sg.names) > 0 && len(sg.names) <= 3 {
+		if len(sg.names) > 0 && len(sg.names) <= 6 {
 			n := 0
 			for _, u := range append(append([]string{}, universals...), hypUniv...) {
 				for _, inst := range instantiateAt(u, sg.names) {
